@@ -1,4 +1,5 @@
 CONSTANT Widths = {"std", "wide", "narrow"}
+CONSTANT Heavy = {65535, 65536, 65541}
 INIT Init
 NEXT Next
 INVARIANT RowsOrdered
